@@ -106,6 +106,8 @@ def roots_of(fnode, expr, extra_src=None):
                     seen.add(key)
                     for v in assigns[key]:
                         visit(v)
+                if isinstance(n, ast.Name) and key in params:
+                    out.add(f'param:{key}')      # a parameter that is also re-bound (normalised) keeps its root
             elif isinstance(n, ast.Name) and key in params:
                 out.add(f'param:{key}')
     visit(expr)
@@ -374,8 +376,8 @@ def run(ctx):
 
 MUTANTS = [
     dict(rule='C05.taint', name='NRT wake-up re-derives beats from seconds (fix reverted)', file='sc3/base/clock.py',
-         old="            delta = self.task.__awake__(self.clock)\n            if isinstance(delta, (int, float)) and not isinstance(delta, bool):\n                self.beats = self.beats + delta\n",
-         new="            beats = self.clock.secs2beats(time)\n            delta = self.task.__awake__(self.clock)\n            if isinstance(delta, (int, float)) and not isinstance(delta, bool):\n                self.beats = beats + delta\n"),
+         old="            delta = self.task.__awake__(self.clock)\n            if isinstance(delta, (int, float)) and not isinstance(delta, bool)\\\n            and delta != float('inf'):  # As sched.\n                self.beats = self.beats + delta\n",
+         new="            beats = self.clock.secs2beats(time)\n            delta = self.task.__awake__(self.clock)\n            if isinstance(delta, (int, float)) and not isinstance(delta, bool)\\\n            and delta != float('inf'):  # As sched.\n                self.beats = beats + delta\n"),
     dict(rule='C05.taint', name='SystemClock reschedules at now + delta', file='sc3/base/clock.py',
          old="                            time = sched_time + delta\n                            cls._sched_add(time, task)",
          new="                            time = now + delta\n                            cls._sched_add(time, task)"),
